@@ -3,8 +3,6 @@ package props
 import (
 	"fmt"
 	"math/big"
-	"os"
-	"path/filepath"
 	"sort"
 	"sync"
 	"time"
@@ -450,10 +448,7 @@ func c15CLI(c *fw.Ctx) fw.Outcome {
 		// the reference points given latest first: the line through two points does not depend on their order
 		a1, d1, a2, d2 = a2, d2, a1, d1
 	}
-	in := filepath.Join(c.TmpDir(), "in.srt")
-	out := filepath.Join(c.TmpDir(), "out.srt")
-	os.WriteFile(in, []byte(simpleSRT(cs)), 0o644)
-	out = outPath(r, in, out)
+	in, out, unit, formats := cliFiles(c, r, cs)
 	key := hashCues(cs, uint64(a1), uint64(d1), uint64(a2), uint64(d2))
 	msg, err := cli("apply-linear-correction", "-i", in, "-a1", time.Duration(a1).String(), "-d1", time.Duration(d1).String(), "-a2", time.Duration(a2).String(), "-d2", time.Duration(d2).String(), "-o", out)
 	if err != nil {
@@ -469,12 +464,12 @@ func c15CLI(c *fw.Ctx) fw.Outcome {
 	for k, it := range got.Items {
 		for _, p := range [][2]int64{{cs[k].S, int64(it.StartAt)}, {cs[k].E, int64(it.EndAt)}} {
 			ex := c15Exact(p[0], a1, d1, a2, d2)
-			// the SRT writer truncates to the millisecond: allow [exact-1ms-1us, exact+1us]
-			lo := new(big.Rat).Sub(ex, new(big.Rat).SetInt64(ms+1000))
+			// the writer truncates to the millisecond (centisecond for SSA): allow [exact-unit-1us, exact+1us]
+			lo := new(big.Rat).Sub(ex, new(big.Rat).SetInt64(unit+1000))
 			hi := new(big.Rat).Add(ex, new(big.Rat).SetInt64(1000))
 			g := new(big.Rat).SetInt64(p[1])
 			if g.Cmp(lo) < 0 || g.Cmp(hi) > 0 {
-				return fw.Bad(key, nil, "CLI apply-linear-correction (a1=%d d1=%d a2=%d d2=%d): boundary %d written as %d, exact %s", a1, d1, a2, d2, p[0], p[1], ex.FloatString(1))
+				return fw.Bad(key, nil, "CLI apply-linear-correction (%s, a1=%d d1=%d a2=%d d2=%d): boundary %d written as %d, exact %s", formats, a1, d1, a2, d2, p[0], p[1], ex.FloatString(1))
 			}
 		}
 		if itemText(it) != cs[k].T {
